@@ -8,6 +8,11 @@ CFG = {
         "Leptos.Stream.C07_in_order_total",
         "Leptos.Stream.C07_in_order_prefix",
         "Leptos.Stream.C07_in_order_views",
+        # out-of-order streaming: all OooWf programs with clean strings, all schedules
+        "Leptos.Stream.C07_out_of_order",
+        "Leptos.Stream.C07_out_of_order_total",
+        "Leptos.Stream.C07_out_of_order_views",
+        "Leptos.Stream.C07_fallback_until_ready_doc",
         # all programs, both modes
         "Leptos.Stream.C07_terminates",
         "Leptos.Stream.C07_no_dup_no_drop",
@@ -32,6 +37,17 @@ CFG = {
         "Leptos.Stream.compile_oooWf",
         "Leptos.Stream.OooWf_of_bool",
         "Leptos.Stream.exec_ids",
+        "Leptos.Stream.occ_in_closed",
+        "Leptos.Stream.splitFirst_skip",
+        "Leptos.Stream.occ_unique",
+        "Leptos.Stream.find_hole_items",
+        "Leptos.Stream.applyScripts_items",
+        "Leptos.Stream.exec_segs",
+        "Leptos.Stream.resolve_sem",
+        "Leptos.Stream.pollStep_ooo",
+        "Leptos.Stream.ORel_start",
+        "Leptos.Stream.ORel_done",
+        "Leptos.Stream.compile_clean",
     ],
     "harness_pkg": "hx-c07",
     "harness_bin": "c07",
@@ -75,8 +91,9 @@ CFG = {
         "LocalResource are outside the view grammar (replace = false is covered on the builder level)",
         "F-C07-2..5 are repaired by hooks/fix-c07-{2,3,4,5}.patch (fix: commits in /repo); the model follows the repaired code, the "
         "old behaviour is kept as Builder.appendOld / inPlaceBufOld / compileOld with kernel-checked regression witnesses",
-        "out-of-order document equality is NOT proved (C07_out_of_order_stmt, C07_fallback_until_ready_stmt are OPEN): it rests on "
-        "the correspondence run and the kernel-evaluated instances",
+        "out-of-order theorems assume text hygiene (cleanOps: no marker/template/script syntax inside pushed strings, every `<` "
+        "closed inside its string) and no nonce; C07_fallback_until_ready_stmt (a static reformulation of the proved "
+        "C07_fallback_until_ready_doc) is OPEN",
     ],
     "manifest": {
         "category": "proof",
@@ -86,15 +103,19 @@ CFG = {
                 "stream in either mode ends within a computed number of polls once all futures completed and poll_next's recursion "
                 "is bounded by a computed measure (C07_terminates); no empty chunk (C07_no_dup_no_drop); a not-ready future leaves "
                 "the pushed text untouched (C07_fallback_until_ready, step level); views compile to "
-                "programs in the proved class (C07_views_wellformed, now every view of the grammar incl. ErrorBoundary). Out-of-order "
-                "document equality is stated (C07_out_of_order_stmt) but OPEN. Four defects found and reproduced on the real code "
+                "programs in the proved class (C07_views_wellformed, every view of the grammar incl. ErrorBoundary). Out-of-order "
+                "document equality is PROVED for all OooWf programs with clean strings and all schedules, at the end of the stream "
+                "(C07_out_of_order, _total, _views: applyScripts(concat) = resolved document; no panic) and at every moment "
+                "(C07_fallback_until_ready_doc: the holes of the client's document are exactly the unresolved futures), via a string "
+                "layer (substring search on tag-closed pieces), a client layer (inline scripts = hole substitution) and a step "
+                "invariant of poll_next. Four defects found and reproduced on the real code "
                 "(ErrorBoundary in-order mis-ordering and out-of-order duplicate marker ids, nested Suspend under Suspense dropped, "
                 "None-view in-place path deletes the fallback) were repaired by four fix: commits; the pre-repair behaviour is kept "
                 "as *Old definitions with kernel-checked regression witnesses; the reversed splice (F-C07-1) is API-misuse only. Tied to the "
                 "code by a differential run of the real StreamBuilder/Suspense/ErrorBoundary against the compiled model at builder "
                 "and view level, exhaustive over completion orders x poll interleavings for small shapes.",
         "design_ref": "DESIGN.md §7 C07",
-        "note": "partial: out-of-order equality not proved (differentially validated only); model hand-written",
+        "note": "model hand-written; out-of-order theorems under a text-hygiene hypothesis; one static reformulation left OPEN",
         "technique": "Lean 4 proof (step invariants + termination measure over all schedules) + refutation witnesses + differential correspondence",
     },
 }
